@@ -301,6 +301,77 @@ def main(chk):
           got = o['in'][0]
         if got.dtype != gj.dtype or float(got) != float(gj):
           chk.violation(key, f'{mode}: {float(got)} ({got.dtype}), jax autodiff of the pure apply function gives {float(gj)} ({gj.dtype})', {})
+  # ---- the program around the lifted call: the module is used before the lifted call and again after it (same instance, setup-
+  # declared children two levels down).  Random draws and state updates of the later use are those of the program without the lift.
+  class Leaf(nn.Module):
+    @nn.compact
+    def __call__(self, x):
+      cnt = self.variable('st', 'cnt', lambda: jnp.asarray(10.0))
+      if self.is_mutable_collection('st'):
+        cnt.value = cnt.value + 1
+      p = self.param('p', lambda k: jnp.asarray(2.0))
+      noise = (jax.random.key_data(self.make_rng('drop')).reshape(-1)[0] % 4096).astype(jnp.float32)
+      return p * x + 1000.0 * cnt.value + noise / 8192.0
+
+  class Mid(nn.Module):
+    own_draw: bool = False
+
+    def setup(self):
+      self.leaf = Leaf()
+
+    def __call__(self, x):
+      y = self.leaf(x)
+      if self.own_draw:      # a draw in the scope that is lifted itself
+        y = y + (jax.random.key_data(self.make_rng('drop')).reshape(-1)[0] % 4096).astype(jnp.float32) / 8192.0
+      return y
+
+  class Around(nn.Module):
+    mode: str = 'plain'
+    before: bool = True
+    own_draw: bool = False
+    over_self: bool = False      # the lifted scope is this module (the state lives two levels below it), not self.mid
+
+    def setup(self):
+      self.mid = Mid(own_draw=self.own_draw)
+
+    def __call__(self, x):
+      f = (lambda m, a: m.mid(a)) if self.over_self else (lambda m, a: m(a))
+      target = self if self.over_self else self.mid
+      outs = []
+      if self.before:
+        outs.append(self.mid(x))
+      if self.mode == 'plain':
+        outs.append(self.mid(x))
+      elif self.mode == 'vjp':
+        y, bwd = nn.vjp(f, target, x)
+        outs.append(y)
+      elif self.mode == 'jvp':
+        outs.append(nn.jvp(f, target, (x,), (jnp.asarray(1.0),), {})[0])
+      elif self.mode == 'value_and_grad':
+        outs.append(nn.value_and_grad(f, target, x)[0])
+      outs.append(self.mid(x))
+      return outs
+  xa = jnp.asarray(3.0)
+  rngs = {'drop': jax.random.key(11), 'params': jax.random.key(3)}
+  for before in (True, False):
+    for own in (False, True):
+      va = Around(before=before, own_draw=own).init(rngs, xa)
+      want, wupd = Around(before=before, own_draw=own).apply(va, xa, mutable=['st'], rngs=rngs)
+      for mode, over in [(m_, o_) for m_ in ('vjp', 'jvp', 'value_and_grad') for o_ in (False, True)]:
+        key = f'C07:around-the-lift:{mode}:used-before={before}:own-draw={own}:over={"self" if over else "child"}'
+        chk.count(key)
+        try:
+          got, upd = Around(mode=mode, before=before, own_draw=own, over_self=over).apply(va, xa, mutable=['st'], rngs=rngs)
+        except Exception as e:
+          chk.violation(key, f'raised {type(e).__name__}: {str(e)[:200]}', {})
+          continue
+        g, w = [float(v) for v in got], [float(v) for v in want]
+        if g != w:
+          chk.violation(key, f'outputs of (use before,) lifted call, use after: {g}; the same program without the lift: {w} '
+                             '(state updates of the forward pass / rng draws do not reach the later use)', {})
+        cu, cw = float(upd['st']['mid']['leaf']['cnt']), float(wupd['st']['mid']['leaf']['cnt'])
+        if cu != cw:
+          chk.violation(key, f'returned counter {cu}, the same program without the lift {cw}', {})
   chk.sample({'spec': 'LiftDiff', 'case': res['exports'][0]})
   chk.cov['configurations'] = n
   chk.assumptions.append('gradient values are compared with the specification\'s exact integers and with jax.vjp of the pure apply function')
